@@ -225,7 +225,7 @@ func longStr(n int) string { return strings.Repeat("x", n) }
 
 // value alphabets (canonical text); tag-dependent strings are added per template
 var alphabet = map[string][]string{
-	"String": {"a", "=", "1=2", "10=000", "8=FIX.4.4", "9=5", "35=A", "a\x00b", "\x80\xfe\xff", " ", "=="},
+	"String": {"a", "=", "1=2", "10=000", "8=FIX.4.4", "9=5", "35=A", "a\x00b", "\x80\xfe\xff", " ", "==", "50% filled", "%s%d%%"},
 	"Int":    {"7", "0", "-1", "1", "9", "10", "99", "100", strconv.Itoa(math.MaxInt64), strconv.Itoa(math.MinInt64)},
 	"Uint":   {"5", "0", "1", "18446744073709551615"},
 	"Float":  {"1.5", "0", "-0.001", strconv.FormatFloat(1e21, 'f', -1, 64), strconv.FormatFloat(5e-324, 'f', -1, 64), strconv.FormatFloat(math.MaxFloat64, 'f', -1, 64), "-1",
